@@ -10,8 +10,19 @@ VERIF = os.path.dirname(os.path.dirname(os.path.abspath(__file__)))
 SPEC = os.path.join(VERIF, "spec")
 HARNESS = os.path.join(VERIF, "harness")
 BIN = os.path.join(HARNESS, "target", "release")
-RUN = os.path.join(VERIF, "run")
-EVID = os.path.join(VERIF, "evidence")
+# VERIF_REPO=<dir>: check a scratch copy/worktree of inejge/ldap3 instead of /repo (seeded-change trials). The harness
+# is then built into its own target directory with cargo's `paths` override, scratch and evidence go under run/alt-<tag>/,
+# and neither /repo nor evidence/ is touched.
+ALT_REPO = os.environ.get("VERIF_REPO")
+if ALT_REPO:
+    ALT_REPO = os.path.abspath(ALT_REPO)
+    _tag = "alt-" + os.path.basename(ALT_REPO.rstrip("/"))
+    RUN = os.path.join(VERIF, "run", _tag)
+    EVID = os.path.join(RUN, "evidence")
+    BIN = os.path.join(RUN, "target", "release")
+else:
+    RUN = os.path.join(VERIF, "run")
+    EVID = os.path.join(VERIF, "evidence")
 FINDINGS = os.path.join(VERIF, "findings", "known_findings.jsonl")
 NCPU = os.cpu_count() or 4
 
@@ -46,7 +57,10 @@ def build_harness():
     if not os.path.exists(lock):
         raise ToolError("harness/Cargo.lock missing")
     env = dict(os.environ, CARGO_NET_OFFLINE="true")
-    p = subprocess.run(["cargo", "build", "--release", "--offline"], cwd=HARNESS, env=env,
+    cmd = ["cargo", "build", "--release", "--offline"]
+    if ALT_REPO:
+        cmd += ["--config", 'paths=["%s","%s/lber"]' % (ALT_REPO, ALT_REPO), "--target-dir", os.path.join(RUN, "target")]
+    p = subprocess.run(cmd, cwd=HARNESS, env=env,
                        stdout=subprocess.PIPE, stderr=subprocess.STDOUT, text=True)
     if p.returncode != 0:
         sys.stdout.write(p.stdout[-6000:])
